@@ -44,6 +44,11 @@ def check(chk):
     reps = [(n, c) for n, c in cfg.calls_named("replace", "rename") if dotted(c.func.value) == "os"]
     chk.need(saves, "PAIR-17", "FileManager.save writes the data through the file interface", f)
     chk.ob("PAIR-17", "the file is renamed into place (atomic replace)", bool(reps), f.where(), construct=f.ident, text="os.replace present")
+    # ... by os.replace alone: the target is never removed first (a crash between remove and rename leaves no file at all) and os.rename is not
+    # used for the move (it fails on an existing target on some systems, which is what tempts one to remove first)
+    unsafe = [c for c in f.calls() if (dotted(c.func) or "") in ("os.remove", "os.unlink", "os.rename", "shutil.move", "os.rmdir")]
+    chk.ob("PAIR-17", "the finished temp file replaces the target in one step (no remove / rename of the target in FileManager.save)", not unsafe,
+           f.where(unsafe[0]) if unsafe else f.where(), detail=", ".join(src(c)[:40] for c in unsafe), construct=f.ident, text="target removed before the move")
     sn, sc = saves[0]
     tmp = src(sc.args[0]) if sc.args else ""
     chk.ob("PAIR-17", "the interface writes to a temporary file, not to the data file itself", tmp not in ("filename", "") , f.where(sc),
@@ -363,6 +368,16 @@ def check(chk):
 
     expiry_restart_is_written(chk, repo)
     setting_persisted_before_set(chk, repo)
+    # a removed machine variable is also removed on disk: the stored set is rewritten as a whole (writing "the variable" cannot remove it)
+    rmv = repo.func(MV, "MachineVariables.remove_machine_var")
+    chk.analysed(rmv)
+    rcfg_ = rmv.cfg()
+    dl_ = [n for n in rcfg_.nodes if n.kind == "stmt" and isinstance(n.ast, ast.Delete) and "self.machine_vars[name]" in src(n.ast)]
+    wr_ = [n.id for n, c in rcfg_.calls_named("_write_machine_vars_to_disk")]
+    chk.need(dl_, "FLOW-6", "remove_machine_var deletes the variable", rmv)
+    w_ = rcfg_.must_pass(dl_[0].id, wr_) if wr_ else [dl_[0].id]
+    chk.ob("FLOW-6", "after a variable was removed the whole persisted set is written again on every path", w_ is None, rmv.where(dl_[0].ast), construct=rmv.ident,
+           detail="the removed variable would come back at the next boot", text="removal persisted")
 
     # ------------------------------------------------------------ OWN-16
     n_s = 0
@@ -427,6 +442,8 @@ def expiry_restart_is_written(chk, repo, rule="FLOW-6"):
 def battery():
     from sa.battery import M
     return [
+        M("target removed before the temp file is moved in", "mpf/core/file_manager.py", "            os.replace(temp_file, filename)", "            if os.path.exists(filename):\n                os.remove(filename)\n            os.rename(temp_file, filename)", "PAIR-17"),
+        M("removed variable not removed on disk", "mpf/core/machine_vars.py", "            del self.machine_vars[name]\n            self._write_machine_vars_to_disk()", "            del self.machine_vars[name]\n            self._write_machine_var_to_disk(name)", "FLOW-6"),
         M("setting marked persistent after it was set", "mpf/core/settings_controller.py", "        self.machine.variables.configure_machine_var(name=self._settings[setting_name].machine_var, persist=True)\n        self.machine.variables.set_machine_var(name=self._settings[setting_name].machine_var, value=value)", "        self.machine.variables.set_machine_var(name=self._settings[setting_name].machine_var, value=value)\n        self.machine.variables.configure_machine_var(name=self._settings[setting_name].machine_var, persist=True)", "FLOW-6"),
         M("busy flag without finally", FM, "        try:\n            ext = os.path.splitext(filename)[1]", "        if True:\n            ext = os.path.splitext(filename)[1]", "PAIR-16", also=[(FM, "        finally:\n            FileManager.is_busy = False", "        FileManager.is_busy = False")]),
         M("replace in finally", FM, "            # move temp file\n            os.replace(temp_file, filename)\n        finally:\n            FileManager.is_busy = False", "        finally:\n            os.replace(temp_file, filename)\n            FileManager.is_busy = False", "PAIR-17"),
